@@ -57,6 +57,21 @@ def layers(prop, tier):
                     'UNIV(%d) with every left size window [a,b], skewed UNIV(K)xUNIV(K\') and '
                     'bag tokenizer with repeated tokens' % Kw, min_nontrivial=100, chunksize=16,
                     bounds={'K': Kw}))
+    # (a'') every operator x allow_empty x n_jobs 2,3 through the parallel path of each *_join_py module
+    Kp = 5
+    jobs = []
+    for meas in SET_MEASURES + ('OVERLAP',):
+        ths = list(range(1, Kp + 1)) if meas == 'OVERLAP' else th_att(meas, Kp, grid=10)
+        for t in ths:
+            for op in ('>=', '>', '='):
+                for ae in ((True, False) if meas != 'OVERLAP' else (True,)):
+                    for nj in (2, 3):
+                        jobs.append({'prop': prop, 'gen': {'gen': 'univ', 'K': Kp, 'order': 'rev' if nj == 3 else None},
+                                     'meas': meas, 't': t, 'op': op, 'ae': ae, 'n_jobs': nj, 'pres': pres,
+                                     'order': 'rev' if nj == 3 else None})
+    Ls.append(Layer('univ-parallel', 'checks.setjoin:w_tables', jobs,
+                    'UNIV(%d) x measure x TH_att u k/10 x op x allow_empty x n_jobs 2,3 (owned scheduler, pickled '
+                    'tasks, reversed task order for 3 jobs)' % Kp, min_nontrivial=1000, chunksize=16))
     # (b) packed tiny tables: all frequency contexts
     tiny = [(3, 2)] if quick else [(3, 2), (4, 2), (3, 3)]
     for (k, r) in tiny:
